@@ -129,7 +129,7 @@ def evaluate(case: Dict[str, Any]) -> Dict[str, Any]:
     nacc = nrej = 0
     any_force = False
     for t in range(ncand):
-        kind = r.choices(["convex", "nonconvex", "zero_y", "same_x", "near_orth"], [6, 3, 1, 1, 4 if far and n > 1 else 0])[0]
+        kind = r.choices(["convex", "nonconvex", "zero_y", "same_x", "near_orth", "nonfinite"], [6, 3, 1, 1, 4 if far and n > 1 else 0, 0.6])[0]
         xn = X[-1] + rng.standard_normal(n) * 10 ** (r.uniform(-4, -1) if far else r.uniform(-3, 0.5))
         if kind == "near_orth":
             s_ = xn - X[-1]
@@ -145,6 +145,12 @@ def evaluate(case: Dict[str, Any]) -> Dict[str, Any]:
             pass
         elif kind == "zero_y":
             gn = G[-1].copy()
+        elif kind == "nonfinite":
+            # a candidate whose gradient has a NaN or infinite component (an objective evaluated on the edge of its domain): s.y is
+            # NaN or infinite, the pair does not satisfy s.y > eps y.y and must be rejected like any other
+            gn = G[-1] + rng.standard_normal(n)
+            gn[r.randrange(n)] = r.choice([np.nan, np.nan, np.inf, -np.inf])
+            out["tags"].append("nonfinite_candidate")
         elif kind == "same_x":
             xn, gn = X[-1].copy(), G[-1] + rng.standard_normal(n)
         else:
@@ -172,7 +178,7 @@ def evaluate(case: Dict[str, Any]) -> Dict[str, Any]:
                 s_, y_ = kX[0] - xo, kG[0] - go
                 sy_, yy_ = float(s_ @ y_), float(y_ @ y_)
                 sc_ = float(np.sum(np.abs(s_ * y_)))
-                if sc_ > 0 and abs(sy_ - eps * yy_) <= 1e-10 * sc_:
+                if np.isfinite(sc_) and sc_ > 0 and abs(sy_ - eps * yy_) <= 1e-10 * sc_:
                     near_tie = True
                 if sy_ > eps * yy_:
                     kX.insert(0, xo)
@@ -195,7 +201,11 @@ def evaluate(case: Dict[str, Any]) -> Dict[str, Any]:
             refX = [x_.copy() for x_ in kX]
             refG = [g_.copy() for g_ in G]
             force = len(X) > 1
-            gn = (cur["A"] @ (xn - center)) if kind == "convex" else (G[-1].copy() if kind in ("zero_y", "same_x") else (G[-1] + yv) if kind == "near_orth" else G[-1] + (grad(xn, kind) - grad(X[-1], kind)))
+            if kind == "nonfinite":
+                gn = G[-1] + rng.standard_normal(n)
+                gn[r.randrange(n)] = np.nan
+            else:
+                gn = (cur["A"] @ (xn - center)) if kind == "convex" else (G[-1].copy() if kind in ("zero_y", "same_x") else (G[-1] + yv) if kind == "near_orth" else G[-1] + (grad(xn, kind) - grad(X[-1], kind)))
             if kind == "same_x":
                 xn = X[-1].copy()
         before = (vshex(list(X)), vshex(list(G)), mats_digest(mats))
@@ -204,6 +214,10 @@ def evaluate(case: Dict[str, Any]) -> Dict[str, Any]:
         except Exception as e:  # the routine itself fails on a valid history: a violation, not a harness failure
             out["prop"].append({"what": f"update_lbfgs_matrices raised {type(e).__name__} on a valid history: {e}", "key": "",
                                 "detail": {"step": t, "stored_points": len(X)}})
+            break
+        if kind == "nonfinite" and not np.isfinite(np.asarray(G[-1], dtype=float)).all():
+            out["prop"].append({"what": "a candidate pair with a NaN / infinite gradient component (s.y > eps y.y does not hold) was stored in the memory",
+                                "key": "", "detail": {"step": t, "stored_points": len(X)}})
             break
         if any_rewrite_now and len(X) == 1:
             mats = LBFGSB_MATRICES(n)       # main.py: no pair survived the rewrite — back to the initial matrices
@@ -215,7 +229,7 @@ def evaluate(case: Dict[str, Any]) -> Dict[str, Any]:
         s, y = xn - refX[-1], gn - refG[-1]
         accept_ref = float(s @ y) > eps * float(y @ y)
         scale_ = float(np.sum(np.abs(s * y)))
-        tie = scale_ > 0 and abs(float(s @ y) - eps * float(y @ y)) <= 1e-10 * scale_
+        tie = np.isfinite(scale_) and scale_ > 0 and abs(float(s @ y) - eps * float(y @ y)) <= 1e-10 * scale_
         if tie:
             return {"corr": None, "skipped": "tie-band", "tags": [], "prop": []}
         if accept_ref:
@@ -291,7 +305,7 @@ def evaluate(case: Dict[str, Any]) -> Dict[str, Any]:
         out["corr"].append("accept/reject decisions differ between model and reference")
     if not any_force and (Xm != vshex(list(X)) or Gm != vshex(list(G))) and not out["prop"]:
         out["corr"].append("deques after the candidate sequence differ (model vs implementation)")
-    if len(got) > 1 and len(X) >= 2:
+    if len(got) > 1 and len(X) >= 2 and np.isfinite(np.array(G, dtype=float)).all():
         _, th, bc, bd = got[1].split(" ")
         B = dense_bfgs(list(X), list(G))
         ev = np.linalg.eigvalsh(0.5 * (B + B.T))
